@@ -413,6 +413,30 @@ class Executor:
         finally:
             self.capture = None
 
+    def eval_all_in_scope(self, module, fn, node, ctx=None, roles=None):
+        """Terms of every outcome of the expression (a choice the analysis cannot decide: a if cond else b), provided
+        none has effects; None otherwise."""
+        self.spec = HandlerSpec(module, fn, None, roles=roles, ctx=ctx)
+        self.inline = True
+        self.undecided = {}
+        self.capture = None
+        scope = module.scopes.get(fn) if fn is not None else None
+        s0 = St.__new__(St)
+        s0.frames = [Frame(scope.node if scope is not None else None, module, {}, scope.qualname if scope is not None else "<module>", True)]
+        s0.trace, s0.memo, s0.heap, s0.epoch, s0.uid, s0.try_depth, s0.loops = [], {}, {}, 0, 900000, 0, {}
+        s0.truncated, s0.kind, s0.config, s0.max_iter = False, None, {}, 1
+        out = []
+        try:
+            for s1, t in self.eval(node, s0):
+                if is_raise(t) or any(e.k not in ("assign", "inline", "inline_exit", "return", "decision") for e in s1.trace):
+                    return None
+                out.append(t)
+                if len(out) > 8:
+                    return None
+        except AnalysisError:
+            return None
+        return out
+
     def _const_eval(self, mod, scope, node, st, salt):
         s0 = St.__new__(St)
         s0.frames = [Frame(scope.node if scope is not None else None, mod, {}, scope.qualname if scope is not None else "<module>", True)]
@@ -619,10 +643,18 @@ class Executor:
             yield st, None
         elif isinstance(tgt, (ast.Tuple, ast.List)):
             n = len(tgt.elts)
+            fields = EVENT_FIELDS.get(st.kind) if t == EV else None
+            star = [k for k, e in enumerate(tgt.elts) if isinstance(e, ast.Starred)]
             for k, e in enumerate(tgt.elts):
                 if isinstance(e, ast.Starred):
-                    sub = ("sub", t, ("slice", const(k), None))
+                    # a, *rest, z = t : rest = t[k : -(number of targets after the star)]
+                    after = n - k - 1
+                    sub = ("sub", t, ("slice", const(k), const(-after) if after else None))
                     e = e.value
+                elif star and k > star[0]:
+                    sub = ("sub", t, const(k - n))        # counted from the end
+                elif fields is not None and len(fields) == n:
+                    sub = ("attr", EV, fields[k])       # key, item, store = i : the event is a namedtuple
                 elif t[0] in ("tuple", "list") and len(t) - 1 == n:
                     sub = t[1 + k]
                 else:
@@ -939,6 +971,7 @@ class Executor:
             s2 = st.fork()
             uid = s2.new_uid()
             iters = []
+            comp_info = []
             from .loader import _target_names
             for g in node.generators:
                 its = list(self.eval(g.iter, s2))
@@ -948,6 +981,7 @@ class Executor:
                 iters.append(it)
                 names = set()
                 _target_names(g.target, names)
+                comp_info.append((ast.unparse(g.target), it))
                 if isinstance(g.target, ast.Name):
                     s2.frame.env[g.target.id] = ("compvar", uid, g.target.id)
                 else:
@@ -974,7 +1008,7 @@ class Executor:
             s3 = res[0][0]
             for e in s3.trace[n0:]:
                 if e.k in ("emit", "store", "ucall", "call", "mutate", "substore", "subdel", "attrstore", "nonlocal", "topo"):
-                    st.trace.append(Eff(e.k, e.node, e.mod, **dict(e.d, in_comp=uid)))
+                    st.trace.append(Eff(e.k, e.node, e.mod, **dict(e.d, in_comp=uid, comp_iters=tuple(comp_info))))
             st.uid = max(st.uid, s3.uid)
             yield st, base + (res[0][1], tuple(iters))
         except Exception:
@@ -1087,6 +1121,10 @@ class Executor:
                 yield s1, ts
                 continue
             b, i = ts
+            if b == EV and i[0] == "const" and isinstance(i[1], int) and not isinstance(i[1], bool) and s1.kind in EVENT_FIELDS \
+                    and -len(EVENT_FIELDS[s1.kind]) <= i[1] < len(EVENT_FIELDS[s1.kind]):
+                yield s1, ("attr", EV, EVENT_FIELDS[s1.kind][i[1]])
+                continue
             if b[0] == "dict":
                 hit = self._dict_lookup(b, i, s1)
                 if hit is not None and hit[0]:
